@@ -313,7 +313,7 @@ def decode_pnm(d):
         depth = 1 if d[:2] == b"P5" else 3
     else:
         raise Bad("ppm:header", "magic %r" % d[:2])
-    if maxval != 255:
+    if not (1 <= maxval <= 255):
         raise Bad("ppm:maxval", "maxval %d in an 8-bit file" % maxval)
     if w <= 0 or h <= 0:
         raise Bad("ppm:header", "dimensions %dx%d" % (w, h))
@@ -332,15 +332,18 @@ def decode_pnm(d):
         out[1::4] = ras[1::depth]
         out[2::4] = ras[2::depth]
         out[3::4] = ras[3::4] if depth == 4 else b"\xff" * (w * h)
-    return w, h, depth in (2, 4), bytes(out)
+    if maxval < 255 and max(ras) > maxval:
+        raise Bad("ppm:sample-exceeds-maxval", "a sample is larger than MAXVAL %d" % maxval)
+    return w, h, depth in (2, 4), bytes(out), maxval
 
 
-def decode_any(d, strict):
+def decode_any(d, strict, trail=0):
+    """returns (w, h, has_alpha, rgba, maxval)"""
     if d[:2] == b"BM":
-        return decode_bmp(d, strict)
+        return decode_bmp(d, strict) + (255,)
     if d[:1] == b"\x89":
-        return decode_png(d)
-    return decode_pnm(d)
+        return decode_png(d) + (255,)
+    return decode_pnm(d[:len(d) - trail] if trail else d)
 
 
 # ---- driver ---------------------------------------------------------------------------------
@@ -373,34 +376,44 @@ def run(outdir, tier, repo):
     counts = {}
 
     def report(key, section, idx, desc):
-        v = viol.get(key)
+        v = viol.get((section, key))
         if v is None or idx < v["idx"]:
-            viol[key] = dict(key=key, section=section, idx=idx, desc=desc, count=(v["count"] if v else 0) + 1)
+            viol[(section, key)] = dict(key=key, section=section, idx=idx, desc=desc, count=(v["count"] if v else 0) + 1)
         else:
             v["count"] += 1
 
     seen = set()
-    for path in sorted(glob.glob(os.path.join(outdir, "saveload.*.dat")) + glob.glob(os.path.join(outdir, "variants.*.dat"))):
+    for path in sorted(glob.glob(os.path.join(outdir, "*.dat"))):
+        file_section = os.path.basename(path).split(".")[0]
         for j, data, expect in records(path):
-            ident = (j["role"], j["idx"])
+            section = j.get("section", file_section)
+            ident = (section, j["role"], j["idx"], j.get("step", 0), j.get("fmt", ""))
             if ident in seen:  # a shard restarted after a crash may have written a record twice
                 continue
             seen.add(ident)
+            want_maxval = j.get("maxval", 255)
             if j["role"] == "saved":
-                section = "saveload"
-                what = "file written by save(%s) for %dx%d %s pattern %d" % (j["fmt"], j["w"], j["h"], "alpha" if j["alpha"] else "no-alpha", j["pat"])
-                expect = rgba_of_pattern(j["w"], j["h"], j["alpha"], j["pat"])
+                if expect:  # round-2 sections pass the expected RGBA explicitly (computed by the harness from its pattern, not by phosg)
+                    what = "file written by save(%s) for a %dx%d %s image%s [%s]" % (j["fmt"], j["w"], j["h"], "alpha" if j["alpha"] else "no-alpha",
+                                                                                  " with MAXVAL %d" % want_maxval if want_maxval != 255 else "", j.get("ctx", ""))
+                else:
+                    what = "file written by save(%s) for %dx%d %s pattern %d" % (j["fmt"], j["w"], j["h"], "alpha" if j["alpha"] else "no-alpha", j["pat"])
+                    expect = rgba_of_pattern(j["w"], j["h"], j["alpha"], j["pat"])
                 want_alpha = bool(j["alpha"])
                 pre = "independent-decode:" + j["fmt"]
                 counts[j["fmt"]] = counts.get(j["fmt"], 0) + 1
+                if j["fmt"] != "ppm":
+                    want_maxval = 255
             else:
-                section = "variants"
                 what = "generated input variant %s %dx%d" % (j["name"], j["w"], j["h"])
                 want_alpha = bool(j["alpha"])
                 pre = "generator-vs-python-decoder"
                 counts["variant"] = counts.get("variant", 0) + 1
+            want_magic = {"ppm": (b"P6", b"P7"), "bmp": (b"BM",), "png": (b"\x89P",)}.get(j.get("fmt"))
             try:
-                w, h, a, px = decode_any(data, strict=(j["role"] == "saved"))
+                if want_magic and data[:2] not in want_magic:
+                    raise Bad(j["fmt"] + ":signature", "file starts with %r" % data[:8])
+                w, h, a, px, maxval = decode_any(data, strict=(j["role"] == "saved"), trail=j.get("trail", 0))
             except Bad as e:
                 kind = e.kind if j["role"] == "saved" else e.kind.split(":")[0] + ":undecodable"
                 report("%s:%s" % (pre, kind.split(":", 1)[1]), section, j["idx"], "%s (%d bytes): %s" % (what, len(data), e))
@@ -410,9 +423,11 @@ def run(outdir, tier, repo):
                 report(pre + ":dimensions", section, j["idx"], "%s: decoder reads %dx%d" % (what, w, h))
             elif a != want_alpha:
                 report(pre + ":alpha", section, j["idx"], "%s: decoder finds alpha=%s" % (what, a))
+            elif maxval != want_maxval:
+                report(pre + ":maxval", section, j["idx"], "%s: decoder reads MAXVAL %d, expected %d" % (what, maxval, want_maxval))
             elif px != expect:
                 i = first_diff(px, expect)
                 report(pre + ":pixels", section, j["idx"], "%s: pixel %d (x=%d,y=%d) channel %d decodes to %02X, expected %02X" % (
-                    what, i // 4, (i // 4) % w, (i // 4) // w, i % 4, px[i], expect[i]))
+                    what, i // 4, (i // 4) % w, (i // 4) // w, i % 4, px[i] if i < len(px) else -1, expect[i] if i < len(expect) else -1))
     notes = ["python stage decoded " + ", ".join("%d %s" % (v, k) for k, v in sorted(counts.items())) + " files with stdlib-only decoders (PNG: every chunk CRC + zlib + filters; BMP: header fields, row order, padding; netpbm P5/P6/P7)"]
     return dict(validated=validated, violations=list(viol.values()), notes=notes)
